@@ -39,6 +39,11 @@ type Sched struct {
 	active   bool
 }
 
+type heldLock struct {
+	key   interface{}
+	write bool
+}
+
 type lockState struct {
 	id      int
 	writer  *Task
@@ -47,15 +52,22 @@ type lockState struct {
 
 // Task is one caller goroutine.
 type Task struct {
-	ID    int
-	Name  string
-	fn    func()
-	wake  chan struct{}
-	done  bool
-	wantK interface{} // lock it is about to acquire (nil = none)
-	wantW bool
-	Panic interface{}
-	Stack string
+	ID     int
+	Name   string
+	fn     func()
+	wake   chan struct{}
+	done   bool
+	wantK  interface{} // lock it is about to acquire (nil = none)
+	wantW  bool
+	wantRW bool        // the lock is an RWMutex (the database lock), not a plain mutex
+	relK   interface{} // lock it has just released (processed by the scheduler goroutine)
+	relW   bool
+	held   []heldLock
+	// LastRWGrant is the global sequence number of this task's latest RWMutex
+	// grant: the serialisation point of the transaction it is running.
+	LastRWGrant int64
+	Panic       interface{}
+	Stack       string
 }
 
 // NewSched attaches a scheduler to w.
@@ -73,6 +85,8 @@ func (s *Sched) Go(name string, fn func()) *Task {
 }
 
 // NextSeq returns the next global event sequence number.
+//
+//go:norace
 func (s *Sched) NextSeq() int64 { s.Seq++; return s.Seq }
 
 //go:norace
@@ -122,6 +136,11 @@ func (s *Sched) Run() {
 	for {
 		var run []*Task
 		live := 0
+		for _, t := range s.tasks {
+			if t.relK != nil {
+				s.release(t)
+			}
+		}
 		for _, t := range s.tasks {
 			if !t.done {
 				live++
@@ -206,6 +225,11 @@ func (s *Sched) grant(t *Task) {
 	}
 	s.Grants = append(s.Grants, fmt.Sprintf("%d:%s:%d", t.ID, mode, ls.id))
 	s.w.Log.Add("grant task=%d %s lock=%d", t.ID, mode, ls.id)
+	if t.wantRW {
+		s.Seq++
+		t.LastRWGrant = s.Seq
+	}
+	t.held = append(t.held, heldLock{t.wantK, t.wantW})
 	t.wantK = nil
 }
 
@@ -282,13 +306,14 @@ func ResetSeqLocks() { seqLocks = map[interface{}]*seqLock{} }
 // LockAcquire is called by the sync shim before taking the real lock.
 //
 //go:norace
-func LockAcquire(key interface{}, write bool) {
+func LockAcquire(key interface{}, write bool, rw bool) {
 	w := W
 	if w != nil && w.Sched != nil && w.Sched.active && w.Sched.cur != nil {
 		s := w.Sched
 		t := s.cur
 		t.wantK = key
 		t.wantW = write
+		t.wantRW = rw
 		s.yield(t) // resumed only once granted (grant() clears wantK)
 		return
 	}
@@ -315,18 +340,12 @@ func LockRelease(key interface{}, write bool) {
 	if w != nil && w.Sched != nil && w.Sched.active && w.Sched.cur != nil {
 		s := w.Sched
 		t := s.cur
-		if ls := s.locks[key]; ls != nil {
-			if write {
-				if ls.writer == t {
-					ls.writer = nil
-				}
-			} else {
-				if ls.readers[t] > 0 {
-					ls.readers[t]--
-					if ls.readers[t] == 0 {
-						delete(ls.readers, t)
-					}
-				}
+		// the scheduler goroutine updates its lock table (see Run)
+		t.relK, t.relW = key, write
+		for i := len(t.held) - 1; i >= 0; i-- {
+			if t.held[i].key == key && t.held[i].write == write {
+				t.held = append(t.held[:i:i], t.held[i+1:]...)
+				break
 			}
 		}
 		s.yield(t)
@@ -348,14 +367,12 @@ func LockRelease(key interface{}, write bool) {
 func CheckUnlock(key interface{}, write bool) bool {
 	w := W
 	if w != nil && w.Sched != nil && w.Sched.active && w.Sched.cur != nil {
-		ls := w.Sched.locks[key]
-		if ls == nil {
-			return false
+		for _, h := range w.Sched.cur.held {
+			if h.key == key && h.write == write {
+				return true
+			}
 		}
-		if write {
-			return ls.writer != nil
-		}
-		return len(ls.readers) > 0
+		return false
 	}
 	l := seqLocks[key]
 	if l == nil {
@@ -375,4 +392,31 @@ func CurTask() int {
 		return W.Sched.cur.ID
 	}
 	return -1
+}
+
+// Cur returns the running task (nil outside scheduled runs).
+//
+//go:norace
+func (s *Sched) Cur() *Task { return s.cur }
+
+// Tasks returns the registered tasks.
+func (s *Sched) Tasks() []*Task { return s.tasks }
+
+// release applies a task's pending unlock to the lock table (scheduler goroutine only).
+//
+//go:norace
+func (s *Sched) release(t *Task) {
+	if ls := s.locks[t.relK]; ls != nil {
+		if t.relW {
+			if ls.writer == t {
+				ls.writer = nil
+			}
+		} else if ls.readers[t] > 0 {
+			ls.readers[t]--
+			if ls.readers[t] == 0 {
+				delete(ls.readers, t)
+			}
+		}
+	}
+	t.relK = nil
 }
